@@ -399,6 +399,7 @@ async def run_gated(path: str, pos: str, faults: dict, periodic_fails_at=None, e
                                connect_waits=reach if faults.get("connect") else None,
                                connect_suspends=pos != "not-started", disconnect_suspends=pos != "not-started")
     obs: dict = {"entered": False, "loaded_ok": None}
+    body_parked = asyncio.Event()
     before = asyncio.all_tasks()
     exc: BaseException | None = None
     gateway = None
@@ -419,12 +420,28 @@ async def run_gated(path: str, pos: str, faults: dict, periodic_fails_at=None, e
                     reg_at_exit = canon(gateway.nodes)
                     if faults.get("body"):
                         raise BodyBoom("body")
+                    if faults.get("cancel"):
+                        body_parked.set()
+                        await asyncio.Event().wait()     # the task running the context is cancelled here
             finally:
                 if reg_at_exit is None:
                     reg_at_exit = canon(gateway.nodes)
 
         try:
-            await asyncio.wait_for(context(), GUARD)
+            if faults.get("cancel"):
+                # leaving the context through cancellation of the task that runs it (asyncio.timeout, Ctrl-C, ...)
+                task = asyncio.ensure_future(context())
+                await asyncio.wait_for(body_parked.wait(), GUARD)
+                task.cancel()
+                await asyncio.wait_for(asyncio.shield(asyncio.wait([task])), GUARD)
+                if not task.done():
+                    raise TimeoutError
+                if task.cancelled():
+                    raise asyncio.CancelledError
+                if task.exception() is not None:
+                    raise task.exception()
+            else:
+                await asyncio.wait_for(context(), GUARD)
         except BaseException as e:  # noqa: BLE001
             exc = e
         for _ in range(3):
@@ -460,14 +477,16 @@ def oracle(corr: Corr, what: str, case: dict, obs: dict, faults: dict) -> bool:
     bad = []
     if obs["outcome"] == "hang":
         bad.append("the context statement did not complete (timeout)")
-    if obs["outcome"] == "cancelled":
+    if obs["outcome"] == "cancelled" and not faults.get("cancel"):
         bad.append("CancelledError propagated out of the context")
     if obs["leftover_tasks"] or obs.get("saver_alive"):
         bad.append(f"{obs['leftover_tasks']} background task(s) left running")
     if obs["entered"] and not obs["disconnect_called"]:
         bad.append("entered but disconnect was never attempted")
     want = expected_outcome(faults)
-    if obs["outcome"] != want and obs["outcome"] not in ("hang", "cancelled"):
+    if faults.get("cancel") and want == "none":
+        want = "cancelled"          # the cancellation is what leaves the context; a failing later step still wins
+    if obs["outcome"] != want and obs["outcome"] not in (("hang",) if faults.get("cancel") else ("hang", "cancelled")):
         bad.append(f"propagated {obs['outcome']} ({obs['error']}), expected {want}")
     if obs["started"] and not faults.get("final") and not obs["file_is_registry_at_exit"]:
         bad.append(f"the file does not hold the registry as of exit (file: {obs['file']})")
@@ -786,6 +805,9 @@ def run_c16(ctx) -> Corr:
         for final in (False, True):
             scenarios.append((pos, {"connect": True, "final": final}, "grid"))
     scenarios.append(("not-started", {"load": True}, "grid"))
+    for pos in positions:
+        for disc in (False, True):
+            scenarios.append((pos, {"cancel": True, "disconnect": disc}, "grid-cancel"))
     if ctx.tier == "thorough":
         for _ in range(200):
             pos = rng.choice(positions)
@@ -817,7 +839,7 @@ def run_c16(ctx) -> Corr:
             corr.count("outcome:" + obs["outcome"])
             corr.case((pos, tuple(sorted(faults))), pos not in ("sleeping",) or bool(faults),
                       {"position": pos, "faults": faults, "outcome": obs["outcome"], "file": obs["file"], "ok": ok})
-            if ctx.model_ok:
+            if ctx.model_ok and not faults.get("cancel"):
                 bits = "".join("1" if faults.get(k) else "0" for k in ("load", "connect", "body", "disconnect", "final"))
                 model_lines.append(f"lnew {bits} 0 0")
                 model_lines.append("lrun " + ",".join(model_schedule(pos, faults)))
